@@ -381,8 +381,21 @@ func autoSites(p *pkg, fn, prefix string, calls map[string]string) (string, []st
 	nu, na := 0, 0
 	ops := map[token.Token]string{token.ADD_ASSIGN: "+", token.SUB_ASSIGN: "-", token.INC: "+", token.DEC: "-", token.MUL_ASSIGN: "*",
 		token.AND_ASSIGN: "&&&", token.OR_ASSIGN: "|||", token.XOR_ASSIGN: "^^^", token.SHL_ASSIGN: "<<<", token.SHR_ASSIGN: ">>>", token.AND_NOT_ASSIGN: "&^"}
+	ng := 0
+	goArgs := func(call *ast.CallExpr, what string) {
+		k := ng
+		ng++
+		for j, a := range call.Args {
+			a := a
+			emit(fmt.Sprintf("%s_g%d_%d", prefix, k, j), fmt.Sprintf("%s: argument %d of the %s call #%d (%s)", fn, j, what, k, p.fset.Position(a.Pos())), func(t *tr) (string, ty) { return t.expr(a) })
+		}
+	}
 	ast.Inspect(fd.Body, func(n ast.Node) bool {
 		switch as := n.(type) {
+		case *ast.GoStmt:
+			goArgs(as.Call, "go")
+		case *ast.DeferStmt:
+			goArgs(as.Call, "defer")
 		case *ast.IncDecStmt:
 			k := nu
 			nu++
@@ -429,7 +442,7 @@ func autoSites(p *pkg, fn, prefix string, calls map[string]string) (string, []st
 		r := r
 		emit(fmt.Sprintf("%s_r%d", prefix, k), fmt.Sprintf("%s: returned value #%d (%s)", fn, k, p.fset.Position(r.Pos())), func(t *tr) (string, ty) { return t.expr(r) })
 	}
-	shape := fmt.Sprintf("(\"%s\", [%d, %d, %d, %d])", prefix, len(cs), nu, na, len(rs))
+	shape := fmt.Sprintf("(\"%s\", [%d, %d, %d, %d, %d])", prefix, len(cs), nu, na, len(rs), ng)
 	return out.String(), rows, shape
 }
 
@@ -452,7 +465,7 @@ func autoModule(out, mod string, p *pkg, fns [][2]string, calls map[string]strin
 	}
 	s += body
 	s += "/-- generated definitions and the identifiers each one mentions, in parameter order -/\ndef siteParams : List (String × List String) := [" + strings.Join(rows, ",\n  ") + "]\n\n"
-	s += "/-- per function: number of conditions, compound assignments, plain assignments, single-value returns in the source -/\ndef shape : List (String × List Nat) := [" + strings.Join(shapes, ",\n  ") + "]\n"
+	s += "/-- per function: number of conditions, compound assignments, plain assignments, single-value returns, go/defer statements in the source -/\ndef shape : List (String × List Nat) := [" + strings.Join(shapes, ",\n  ") + "]\n"
 	s += footer(mod)
 	write(out, mod, s)
 }
